@@ -13,6 +13,7 @@ import Proofs.ModelsNested
 import Proofs.ModelsCnl
 import Proofs.ModelsOrdered
 import Proofs.ModelsDrop
+import Proofs.ModelsOrder
 
 open Models
 
@@ -174,6 +175,83 @@ theorem unavailable_irrelevant (nests : List (Nest ℝ)) (cn : List (CNest ℝ))
     cnlMuP (cn.map (restrictCNest av)) mu (alts.filter (avail av)) V av c = cnlMuP cn mu alts V av c :=
   ⟨logitP_drop alts V av c, nestedP_drop nests alts V av c hc, nestedMuP_drop nests mu alts V av c hc,
    cnlP_drop cn alts V av c hc, cnlMuP_drop cn mu alts V av c hc⟩
+
+/-! ## nest structures: the listing order is irrelevant, overlapping nests are refused -/
+
+/-- `check_partition` (nested logit) and `check_validity` (cross-nested) give the same verdict for
+every order in which the nests are listed -/
+theorem validation_order_irrelevant (cs : List Int) (lists lists' : List (List Int))
+    (h : lists.Perm lists') :
+    checkPartition cs lists = checkPartition cs lists' ∧
+    checkValidity cs lists = checkValidity cs lists' :=
+  ⟨checkPartition_perm cs h, checkUnion_perm cs h⟩
+
+example : ([[3, 14], [27, 8], [40, 14]] : List (List Int)).Perm [[40, 14], [3, 14], [27, 8]] := by
+  decide
+
+/-- `check_partition` accepts exactly the structures whose nests are pairwise disjoint (nests at any
+two different positions, neighbours or not) and cover, with the alone alternatives, the choice set -/
+theorem partition_iff (cs : List Int) (lists : List (List Int)) :
+    checkPartition cs lists = true ↔
+      ((∀ i ∈ cs, i ∈ unionAlts lists ∨ i ∈ aloneOf cs lists) ∧
+        (∀ i, (i ∈ unionAlts lists ∨ i ∈ aloneOf cs lists) → i ∈ cs)) ∧
+      (∀ l ∈ lists, ∀ j, j ∈ l → j ∉ aloneOf cs lists) ∧
+      lists.Pairwise (fun a b => ∀ j, j ∈ a → j ∉ b) := by
+  unfold checkPartition
+  rw [Bool.and_eq_true, checkUnion_iff, checkIntersection_iff]
+  rfl
+
+/-- the nested logit functions (`nested`, `lognested`, `nested_mev_mu`, `lognested_mev_mu`: the Boolean
+is the `_mu` flag) refuse with `BiogemeError` every specification in which an alternative is written
+in two nests, whichever two positions `i ≠ j` of the tuple they occupy -/
+theorem nested_overlap_refused (utilKeys : List Int) (arg : NestsArg (Nest ℝ)) (b : Bool)
+    (o : NestsObj (Nest ℝ)) (hres : resolve Nest.alts utilKeys arg = .ok o) (i j : Nat)
+    (hi : i < o.nests.length) (hj : j < o.nests.length) (hij : i ≠ j) (x : Int)
+    (hxi : x ∈ o.nests[i].alts) (hxj : x ∈ o.nests[j].alts) :
+    nestedSetup utilKeys arg b = .error "BiogemeError" := by
+  have hc := checkPartition_overlap o.choiceSet (o.nests.map Nest.alts) i j (by simpa using hi)
+    (by simpa using hj) hij x (by simpa using hxi) (by simpa using hxj)
+  unfold nestedSetup
+  rw [hres]
+  simp only [bind, Except.bind, hc]
+  rfl
+
+/-- the hypotheses on a concrete input: three nests, the first and the last one share alternative 14 -/
+example :
+    resolve Nest.alts [14, 3, 27, 8, 40, 5]
+        (.legacy [.tup (⟨1.5, [3, 14]⟩ : Nest ℝ), .tup ⟨2, [27, 8]⟩, .tup ⟨3, [40, 14]⟩]) =
+      .ok ⟨[14, 3, 27, 8, 40, 5], [⟨1.5, [3, 14]⟩, ⟨2, [27, 8]⟩, ⟨3, [40, 14]⟩]⟩ ∧
+    checkPartition [14, 3, 27, 8, 40, 5] [[3, 14], [27, 8], [40, 14]] = false ∧
+    checkPartition [14, 3, 27, 8, 40, 5] [[3, 14], [27, 8], [40]] = true := by
+  refine ⟨rfl, by decide, by decide⟩
+
+/-- nested logit (± mu): for an accepted structure the probabilities and log-probabilities do not
+depend on the order in which the nests are listed -/
+theorem nested_order_irrelevant (cs alts : List Int) (nests nests' : List (Nest ℝ)) (mu : ℝ)
+    (V av : Int → ℝ) (c : Int) (hp : nests.Perm nests')
+    (hok : checkPartition cs (nests.map Nest.alts) = true) :
+    nestedP nests alts V av c = nestedP nests' alts V av c ∧
+    nestedMuP nests mu alts V av c = nestedMuP nests' mu alts V av c ∧
+    logNestedP nests alts V av c = logNestedP nests' alts V av c ∧
+    logNestedMuP nests mu alts V av c = logNestedMuP nests' mu alts V av c := by
+  have hd := pairwise_nests nests (checkPartition_disjoint cs _ hok)
+  unfold nestedP nestedMuP logNestedP logNestedMuP
+  rw [nestedLogG_perm hp hd, nestedMuLogG_perm hp hd]
+  exact ⟨rfl, rfl, rfl, rfl⟩
+
+example : [(⟨1.5, [3, 14]⟩ : Nest ℝ), ⟨2, [27]⟩, ⟨3, [40, 8]⟩].Perm
+    [⟨2, [27]⟩, ⟨1.5, [3, 14]⟩, ⟨3, [40, 8]⟩] := List.Perm.swap _ _ _
+
+/-- cross-nested logit (± mu): the same for every structure (overlapping nests, any allocation) -/
+theorem cnl_order_irrelevant (alts : List Int) (nests nests' : List (CNest ℝ)) (mu : ℝ)
+    (V av : Int → ℝ) (c : Int) (hp : nests.Perm nests') :
+    cnlP nests alts V av c = cnlP nests' alts V av c ∧
+    cnlMuP nests mu alts V av c = cnlMuP nests' mu alts V av c ∧
+    logCnlP nests alts V av c = logCnlP nests' alts V av c ∧
+    logCnlMuP nests mu alts V av c = logCnlMuP nests' mu alts V av c := by
+  unfold cnlP cnlMuP logCnlP logCnlMuP
+  rw [cnlLogG_perm hp, cnlMuLogG_perm hp]
+  exact ⟨rfl, rfl, rfl, rfl⟩
 
 /-! ## log versions -/
 
